@@ -58,3 +58,22 @@ Proof.
     + apply certified_optimal. vm_compute. reflexivity.
     + apply certified_optimal. vm_compute. reflexivity.
 Qed.
+
+(* ---------------------------------------------------------------- F20: the sentinel inf = sum(c) + 1 of augment *)
+
+(* n = 4, the unique perfect matching 0->1, 1->3, 2->2, 3->0 uses the three expensive pairs (cost B = 14); with 0 passes of
+   augmenting row reduction the as-is prices go so negative (v[2] = -33) that a legitimate reduced cost exceeds sum(c) + 1 = 50:
+   a rebuild of scan in augment finds no column, and the code reads p_scan[low] past `up` (SIGSEGV on the real code).  The model
+   returns None exactly there; the same model with a true infinity returns the optimum. *)
+Definition f20_tri : list triple :=
+  [T 0 1 (sc 14); T 0 2 (sc 1); T 1 1 (sc 2); T 1 3 (sc 14); T 2 2 (sc 14); T 3 0 (sc 2); T 3 3 (sc 2)].
+
+Theorem inf_sentinel_refuted :
+  exists n tri k, wf n tri /\ has_PM n tri /\
+    lapjv AsIs eps26 eps26 k n tri = None /\
+    (exists out, lapjv_ref AsIs eps26 eps26 k n tri = Some out /\ Optimal n tri (x_of out)).
+Proof.
+  exists 4%nat, f20_tri, 0%nat. split; [vm_compute; reflexivity|]. split.
+  - apply (wf_has_pm_by _ _ [1; 3; 2; 0]%nat [3; 0; 2; 1]%nat). vm_compute. reflexivity.
+  - split; [vm_compute; reflexivity|]. apply certified_optimal. vm_compute. reflexivity.
+Qed.
